@@ -123,6 +123,18 @@ namespace nmtools::index
                 return return_t{meta::Nothing};
             }
 
+            // zero extent, or negative extent other than -1, is invalid
+            // (also avoids division by zero below)
+            for (size_t i=0; i<(size_t)len(dst_shape); i++) {
+                const auto d_i = (index_t)at(dst_shape,i);
+                if ((d_i == 0) || (d_i < -1)) {
+                    return return_t{meta::Nothing};
+                }
+            }
+            if (dst_numel == 0) {
+                return return_t{meta::Nothing};
+            }
+
             auto src_numel = (size_t)product(src_shape);
 
             if ((minus_1_count == 0) && (src_numel != dst_numel)) {
